@@ -42,12 +42,12 @@ func (s *xstate) clone() *xstate {
 
 // xoutcome is one way a modelled call can turn out.
 type xoutcome struct {
-	result *absVal           // value of the call (tuple as avStruct with fields "0","1",…)
-	apply  func(st *xstate)  // side effects on the state (e.g. automaton transition)
-	inline *ssa.Function     // if non-nil: run this function (closure) with args instead of binding result
+	result *absVal          // value of the call (tuple as avStruct with fields "0","1",…)
+	apply  func(st *xstate) // side effects on the state (e.g. automaton transition)
+	inline *ssa.Function    // if non-nil: run this function (closure) with args instead of binding result
 	args   []*absVal
 	then   func(st *xstate, ret *absVal) []xoutcome // continuation after an inlined call: outcomes given its return value
-	bind   map[ssa.Value]*absVal // free-variable bindings for an inlined closure
+	bind   map[ssa.Value]*absVal                    // free-variable bindings for an inlined closure
 }
 
 type xwalker struct {
@@ -311,7 +311,6 @@ func (x *xwalker) inlineStatic(st *xstate, call *ssa.Call, fn *ssa.Function) []x
 }
 
 func avStr(s string) *absVal { return avC(constant.MakeString(s)) }
-
 
 // FramesKey renders the control position of every frame.
 func (x *xwalker) FramesKey(st *xstate) string {
